@@ -62,7 +62,7 @@ Ftp::ParseProtoIpPort(const char *buf, Ip::Address &addr)
     const char delim = *buf;
     const char *s = buf + 1;
     const char *e = s;
-    const int proto = strtol(s, const_cast<char**>(&e), 10);
+    const auto proto = strtol(s, const_cast<char**>(&e), 10); // long: no wrapping
     if ((proto != 1 && proto != 2) || *e != delim)
         return false;
 
@@ -76,7 +76,8 @@ Ftp::ParseProtoIpPort(const char *buf, Ip::Address &addr)
         return false;
     strncpy(ip, s, e - s);
     ip[e - s] = '\0';
-    addr = ip;
+    if (!(addr = ip))
+        return false; // not an IP literal; do not keep whatever addr held before
 
     if (addr.isAnyAddr())
         return false;
@@ -85,8 +86,8 @@ Ftp::ParseProtoIpPort(const char *buf, Ip::Address &addr)
         return false;
 
     s = e + 1; // skip port delimiter
-    const int port = strtol(s, const_cast<char**>(&e), 10);
-    if (port < 0 || *e != '|')
+    const auto port = strtol(s, const_cast<char**>(&e), 10); // long: no wrapping
+    if (e == s || port <= 0 || port > 65535 || *e != '|')
         return false;
 
     if (Config.Ftp.sanitycheck && port < 1024)
